@@ -71,7 +71,7 @@ ASSUMPTIONS = [
     "returned coordinates are compared with tolerance 1e-9 (segments) / 1e-7 (polygons; the function merges points "
     "closer than its tol=1e-8)",
 ]
-REQUIRED = {"lines": 0.3, "polys": 0.15, "lines-history": 0.1, "polys-history": 0.05, "polygon-modified-in-place": 0.05,
+REQUIRED = {"int-dtype-inputs": 0.05, "lines": 0.3, "polys": 0.15, "lines-history": 0.1, "polys-history": 0.05, "polygon-modified-in-place": 0.05,
             "history-polygon-fresh-copy-after-modification": 0.02, "history-polygon-same-object": 0.02,
             "history-interleaved": 0.02, "polyhedron-modified-in-place": 0.02, "poly-convex": 0.05, "poly-star": 0.05, "poly-hist": 0.05,
             "seg-inside": 0.03, "seg-outside": 0.03, "seg-cut": 0.1, "seg-multi-piece": 0.01, "seg-boundary-part": 0.02,
@@ -236,7 +236,9 @@ def _spec(draw):
         ntag = draw(st.sampled_from([0, 0, 1, 2]))
         return {"fn": fn, "poly": P, "segs": segs,
                 "tags": [draw(st.lists(st.integers(0, 9), min_size=ns, max_size=ns)) for _ in range(ntag)],
-                "rows3": draw(st.booleans()), "perm": list(draw(st.permutations(list(range(2 * ns)))))}
+                "rows3": draw(st.booleans()), "perm": list(draw(st.permutations(list(range(2 * ns))))),
+                "dt": [draw(st.sampled_from(["f8", "f8", "f8", "i8", "i4", "f4"])),
+                       draw(st.sampled_from(["f8", "f8", "f8", "i8", "i4", "f4"]))]}
     split = draw(st.one_of(st.just(0), st.integers(1, 2 ** 24 - 1)))
     H = draw(polys.polyhedron_points(max_extra=4 if not split else 2, prefer_box=bool(split)))
     npoly = draw(st.sampled_from([1, 2, 2]))
@@ -245,7 +247,8 @@ def _spec(draw):
     polygons = [draw(_planar_polygon(H["pts"], draw(st.integers(0, 5)) < (3 if split else 1))) for _ in range(npoly)]
     return {"fn": fn, "pts": H["pts"], "polygons": polygons,
             "mask": draw(st.integers(0, 2 ** 20 - 1)), "as_array": draw(st.booleans()),
-            "split": split, "shuffle": draw(st.integers(0, 10 ** 6))}
+            "split": split, "shuffle": draw(st.integers(0, 10 ** 6)),
+            "dt": [draw(st.sampled_from(["f8", "f8", "f8", "i8", "i4"])), draw(st.sampled_from(["f8", "f8", "f8", "i8", "i4"]))]}
 
 
 def strategy(tier):
@@ -459,7 +462,17 @@ def _check_lines(pp, s):
     v = P["v"]
     if not ep.is_simple(v):
         raise HarnessError(f"polygon not simple: {P}")
+    dt_pts, dt_poly = s.get("dt", ["f8", "f8"])
+    s = dict(s)
+    if dt_pts[0] == "i":
+        # integer point array: the whole configuration is scaled by 2, so that the half-integer end points become integers
+        v = [[2 * p[0], 2 * p[1]] for p in v]
+        s["segs"] = [[[2 * c for c in pt] for pt in seg] for seg in s["segs"]]
     labels = ["lines", "poly-" + P["kind"], "poly-ccw" if ep.area2x(v) > 0 else "poly-cw"]
+    if dt_pts[0] == "i" or dt_poly[0] == "i":
+        labels.append("int-dtype-inputs")
+    if "f4" in (dt_pts, dt_poly):
+        labels.append("float32-inputs")
     if P["hang"]:
         labels.append("poly-hanging")
     v2 = [[2 * p[0], 2 * p[1]] for p in v]
@@ -476,6 +489,11 @@ def _check_lines(pp, s):
     poly = np.array(v, dtype=float).T
     if s["rows3"]:
         poly = np.vstack([poly, np.zeros(poly.shape[1])])
+    np_dt = {"f8": np.float64, "f4": np.float32, "i8": np.int64, "i4": np.int32}
+    for a_, d_ in ((pts, dt_pts), (poly, dt_poly)):
+        if not np.array_equal(a_.astype(np_dt[d_]), a_):
+            raise HarnessError(f"coordinates are not representable as {d_}")
+    pts, poly = pts.astype(np_dt[dt_pts]), poly.astype(np_dt[dt_poly])
     int_pts, int_edges, kept = pp.constrain_geometry.lines_by_polygon(poly, pts, edges)
     nontrivial = _lines_verify(v, s["segs"], edges, (int_pts, int_edges, kept), labels)
     return {"labels": labels, "nontrivial": nontrivial}
@@ -763,12 +781,23 @@ def _hanging_count(Q, cuts, verts):
 
 
 def _check_polys(pp, s, faces=None, polygons=None):
+    dt = s.get("dt", ["f8", "f8"])
+    int_labels = []
+    if faces is None and polygons is None and (dt[0][0] == "i" or dt[1][0] == "i"):
+        # integer arrays: the configuration is scaled by SC so that every coordinate is an integer
+        s = dict(s, pts=[[SC * c for c in p] for p in s["pts"]],
+                 polygons=[[[SC * c for c in v] for v in vs] for vs in s["polygons"]], dt=["f8", "f8"])
+        np_dt = {"f8": np.float64, "i8": np.int64, "i4": np.int32}
+        _, sides_ = _sides(s)[:2]
+        faces = [(np.array(t, dtype=float).T / SC).astype(np_dt[dt[0]]) for t in sides_]
+        polygons = [(np.array(vs, dtype=float).T / SC).astype(np_dt[dt[1]]) for vs in s["polygons"]]
+        int_labels = ["int-dtype-inputs"]
     facets, sides, cuts = _sides(s)
     if faces is None:
         faces = [np.array(t, dtype=float).T / SC for t in sides]
     elif len(faces) != len(sides) or any(not np.array_equal(f, np.array(t, dtype=float).T / SC) for f, t in zip(faces, sides)):
         raise HarnessError("history: side arrays do not hold the current content")
-    labels = ["polys", "ph-faces-poly" if any(f.shape[1] > 3 for f in faces) else "ph-faces-tri"]
+    labels = ["polys", "ph-faces-poly" if any(f.shape[1] > 3 for f in faces) else "ph-faces-tri"] + int_labels
     if cuts:
         labels.append("polyh-coplanar-sides")
     if polygons is None:
